@@ -503,6 +503,43 @@ fn peg_sweep(seed: u64, idx: u64, stats: &mut Counters) -> Option<(PegConfig, u6
     }
 }
 
+/// MacKay-Neal on larger matrices than the searches use, many seeds per configuration, run
+/// sequentially: every successful run must honour its configuration. (The construction's
+/// backtracking and girth bookkeeping go through long internal histories only on matrices of
+/// some size; seeded change C16-r5-3 skips a girth check in about one successful run in 600 on
+/// 20 x 40 with girth 8.)
+fn mn_sweep(seed: u64, idx: u64, stats: &mut Counters) -> Option<(MnConfig, u64, String)> {
+    let mut g = Stream::new(keyed(seed, &[idx]), "c16-mn-sweep");
+    let nrows = 10 + g.below(16) as usize;
+    let ncols = nrows + g.below(nrows as u64 + 1) as usize;
+    let wc = 2 + g.below(2) as usize;
+    let need = (ncols * wc).div_ceil(nrows);
+    let conf = MnConfig {
+        nrows,
+        ncols,
+        wr: need + g.below(3) as usize,
+        wc,
+        backtrack_cols: *g.pick(&[1usize, 2, 6, 10]),
+        backtrack_trials: *g.pick(&[2usize, 5, 20, 50]),
+        min_girth: *g.pick(&[None, Some(6), Some(6), Some(8), Some(8)]),
+        girth_trials: *g.pick(&[2usize, 5, 20]),
+        fill_policy: if g.chance(2, 3) { FillPolicy::Random } else { FillPolicy::Uniform },
+    };
+    let s0 = g.below(100_000);
+    for s in s0..s0 + 24 {
+        match conf.run(s) {
+            Ok(h) => {
+                stats.inc("matrices checked (MacKay-Neal sweep on larger configurations)");
+                if let Some(d) = check_mackay_neal(&conf, s, &h) {
+                    return Some((conf, s, d));
+                }
+            }
+            Err(_) => stats.inc("MacKay-Neal sweep run failed"),
+        }
+    }
+    None
+}
+
 /// Fixed probes: different seeds explore different choices (deterministic, seed-independent).
 fn seed_diversity() -> Option<String> {
     let mn = MnConfig { nrows: 8, ncols: 16, wr: 6, wc: 3, backtrack_cols: 2, backtrack_trials: 5, min_girth: None, girth_trials: 0, fill_policy: FillPolicy::Random };
@@ -537,6 +574,12 @@ pub fn replay(body: &Value, path: &str) -> ! {
             }
         }
     };
+    if body["engine"].as_str() == Some("parsim-mn-sweep") {
+        let conf = mn_from_json(&body["mackay_neal"]).unwrap_or_else(|| harness_error("bad C16 replay"));
+        let s: u64 = body["mn_seed"].as_str().and_then(|x| x.parse().ok()).unwrap_or(0);
+        let r = conf.run(s).ok().and_then(|h| check_mackay_neal(&conf, s, &h));
+        fin(r.map(|d| Violation::new("mackay-neal-invariant", d)))
+    }
     if body["engine"].as_str() == Some("parsim-peg") {
         let conf = PegConfig { nrows: body["peg"]["nrows"].as_u64().unwrap_or(1) as usize, ncols: body["peg"]["ncols"].as_u64().unwrap_or(1) as usize, wc: body["peg"]["wc"].as_u64().unwrap_or(1) as usize };
         let s: u64 = body["peg_seed"].as_str().and_then(|x| x.parse().ok()).unwrap_or(0);
@@ -600,6 +643,7 @@ pub fn main(opts: &Opts) -> ! {
         counters: Counters,
         failures: Vec<(u64, Case, Violation)>,
         peg_failures: Vec<(u64, PegConfig, u64, String)>,
+        mn_failures: Vec<(u64, MnConfig, u64, String)>,
         winners: std::collections::BTreeMap<u64, BTreeSet<Option<u64>>>,
         inter: BTreeSet<u64>,
         samples: Vec<Value>,
@@ -611,6 +655,7 @@ pub fn main(opts: &Opts) -> ! {
         counters: Counters::default(),
         failures: vec![],
         peg_failures: vec![],
+        mn_failures: vec![],
         winners: Default::default(),
         inter: BTreeSet::new(),
         samples: vec![],
@@ -671,6 +716,18 @@ pub fn main(opts: &Opts) -> ! {
             }
         }
     });
+    let nsweep = if opts.tier == Tier::Thorough { (40_000.0 * opts.scale) as u64 } else { (4000.0 * opts.scale) as u64 };
+    let _done_sweep = par_map(nsweep, opts.threads, deadline, &stop, |i| {
+        let mut c = Counters::default();
+        let r = mn_sweep(opts.seed, i, &mut c);
+        let mut a = acc.lock().unwrap();
+        a.counters.merge(&c);
+        if let Some((conf, s, d)) = r {
+            if a.mn_failures.len() < 20 {
+                a.mn_failures.push((i, conf, s, d));
+            }
+        }
+    });
     let mut a = acc.into_inner().unwrap();
     if let Some(m) = &a.mismatch {
         harness_error(&format!("determinism re-check failed: {}", m));
@@ -682,7 +739,7 @@ pub fn main(opts: &Opts) -> ! {
         done.len(),
         done_peg.len(),
         a.steps,
-        a.failures.len() + a.peg_failures.len(),
+        a.failures.len() + a.peg_failures.len() + a.mn_failures.len(),
         multi,
         t0.elapsed().as_secs_f64()
     );
@@ -713,6 +770,15 @@ pub fn main(opts: &Opts) -> ! {
         });
         let path = write_replay("C16", opts.seed, 10_000_000 + *i, &body);
         violations.push((path, "peg-invariant".into(), format!("{:?} {}", conf, d)));
+    }
+    if let Some((i, conf, s, d)) = a.mn_failures.first() {
+        let body = json!({
+            "property": "C16", "engine": "parsim-mn-sweep", "seed": opts.seed, "run": i,
+            "mackay_neal": mn_to_json(conf), "mn_seed": s.to_string(),
+            "violation": {"kind": "mackay-neal-invariant", "detail": d}, "replay_verified": false,
+        });
+        let path = write_replay("C16", opts.seed, 30_000_000 + *i, &body);
+        violations.push((path, "mackay-neal-invariant".into(), format!("{:?}: {}", conf, d)));
     }
     if let Some(d) = seed_diversity() {
         let body = json!({"property": "C16", "engine": "parsim-diversity", "violation": {"kind": "seed-ignored", "detail": d}});
